@@ -8,7 +8,7 @@ import numpy as np
 from scipy.special import ndtri
 
 
-BLOB_MODES = {"blobs": 1, "blobs2": 2, "blobs_auto": 1, "blobs_str": 1}
+BLOB_MODES = {"blobs": 1, "blobs2": 2, "blobs_auto": 1, "blobs_str": 1, "blobs_rec": 2, "blobs_arr": 1}
 
 
 class Target:
@@ -83,7 +83,7 @@ class Target:
 
     def blob_vec(self, x):
         """all blob components of the current mode (one for 'blobs' / 'blobs_auto' / 'blobs_str', two for 'blobs2')"""
-        if self.mode == "blobs2":
+        if self.mode in ("blobs2", "blobs_rec", "blobs_arr"):
             return [self.blob_row(x), 2.0 * float(x[self.d - 1]) - 1.0]
         if self.mode == "blobs_str":
             return [repr(float(x[0]))]  # strings of different lengths (3..24 characters): truncation would show
@@ -92,8 +92,19 @@ class Target:
     def blob_match(self, x, stored):
         """is `stored` (one row of a blobs array, any dtype) exactly what the likelihood returns as blob(s) at x?"""
         exp = self.blob_vec(x)
-        got = np.asarray(stored, dtype=object).ravel().tolist()
+        st = np.asarray(stored)
+        if st.dtype.names:  # structured blobs_dtype: one record per particle
+            got = [v for n in st.dtype.names for v in np.asarray(st[n], dtype=object).ravel().tolist()]
+        else:
+            got = np.asarray(stored, dtype=object).ravel().tolist()
         return len(got) == len(exp) and all(bool(g == e) for g, e in zip(got, exp))
+
+    def loglike_blobs_arr(self, x):
+        self.n_calls += 1
+        self.n_points += 1
+        v = self.ll_row(x)
+        self.n_finite += int(math.isfinite(v))
+        return v, np.array(self.blob_vec(x))  # ONE array-valued blob
 
     def loglike_blobs_str(self, x):
         self.n_calls += 1
@@ -136,7 +147,8 @@ class Target:
     @property
     def loglike(self):
         return {"vector": self.loglike_vector, "scalar": self.loglike_scalar, "blobs": self.loglike_blobs,
-                "blobs2": self.loglike_blobs2, "blobs_auto": self.loglike_blobs, "blobs_str": self.loglike_blobs_str}[self.mode]
+                "blobs2": self.loglike_blobs2, "blobs_auto": self.loglike_blobs, "blobs_str": self.loglike_blobs_str,
+                "blobs_rec": self.loglike_blobs2, "blobs_arr": self.loglike_blobs_arr}[self.mode]
 
     def sampler_kwargs(self):
         kw = {"prior_transform": self.pt, "log_likelihood": self.loglike, "n_dim": self.d}
@@ -144,6 +156,10 @@ class Target:
             kw["vectorize"] = True
         if self.mode in ("blobs", "blobs2"):
             kw["blobs_dtype"] = "float"
+        if self.mode == "blobs_rec":
+            kw["blobs_dtype"] = [("a", float), ("b", float)]  # structured dtype with named fields (docs/examples/blobs.md)
+        if self.mode == "blobs_arr":
+            kw["blobs_dtype"] = (float, 2)  # one array-valued blob per particle (docs/examples/blobs.md, case 3)
         # 'blobs_auto' (float blob) and 'blobs_str' (string blob) leave blobs_dtype to the sampler's own detection
         return kw
 
